@@ -78,6 +78,8 @@ type Contract struct {
 	Where  string
 	Opaque []string
 	PerReturn bool
+	NoFrame   bool
+	ExitGhost []*SiteClause
 	Props map[string]bool // property tags mentioned
 	SafetyProps map[string]bool // properties owning the implicit safety/termination obligations
 }
@@ -332,7 +334,7 @@ func findDefEq(s string) int {
 func parseContract(key string, clauses []string, where string) (*Contract, error) {
 	c := &Contract{Key: key, LoopInv: map[int][]*Clause{}, LoopDecr: map[int][]*Expr{}, LoopMod: map[int][]*Expr{}, Where: where, Props: map[string]bool{}, SafetyProps: map[string]bool{}}
 	// clauses may themselves have been continued: a clause starts with a keyword
-	kw := regexp.MustCompile(`^(requires|ensures|modifies|allocates|pure|trusted|decreases|loop|maypanic|let|safety|formals|results|witness|replay|site|opaque|perreturn)\b`)
+	kw := regexp.MustCompile(`^(requires|ensures|modifies|allocates|pure|trusted|decreases|loop|maypanic|let|safety|formals|results|witness|replay|site|opaque|perreturn|exitghost|noframe)\b`)
 	var merged []string
 	for _, l := range clauses {
 		l = strings.TrimSpace(l)
@@ -404,6 +406,9 @@ func parseContract(key string, clauses []string, where string) (*Contract, error
 			}
 		case "formals":
 			c.Formals = splitTop(rest)
+		case "noframe":
+			// no frame condition: nothing is promised about what the function leaves unchanged
+			c.NoFrame = true
 		case "perreturn":
 			// ensures clauses are checked at each return statement separately instead of at the merged exit
 			c.PerReturn = true
@@ -487,6 +492,21 @@ func parseContract(key string, clauses []string, where string) (*Contract, error
 				return nil, fmt.Errorf("%s: bad site clause kind %q", w, f[1])
 			}
 			c.Sites = append(c.Sites, sc)
+		case "exitghost":
+			// exitghost <ghost lvalue> = <expr>: ghost update performed at every return, before the postcondition
+			i := findDefEq(rest)
+			if i < 0 {
+				return nil, fmt.Errorf("%s: bad exitghost %q", w, l)
+			}
+			lhs, err := ParseExpr(rest[:i], w)
+			if err != nil {
+				return nil, err
+			}
+			rhs, err := ParseExpr(rest[i+1:], w)
+			if err != nil {
+				return nil, err
+			}
+			c.ExitGhost = append(c.ExitGhost, &SiteClause{Kind: "exitghost", LHS: lhs, E: rhs, Src: rest})
 		case "witness":
 			kv := strings.SplitN(rest, "=", 2)
 			e, err := ParseExpr(kv[1], w)
